@@ -12,6 +12,21 @@ CHECKS = {
  'C13': dict(text='Coq theorems over ALL operation sequences and all oracle data accepted by the model (P_C13.v: record lengths agree, every ellipsoid keeps n_points_min points, clear may-split flag implies 2 n_min points, points of all ellipsoids plus trimmed ones are a permutation of the construction points, successful split does not increase the summed volume, refused operation changes nothing) about a Gallina model of Union.split/trim/sample bookkeeping, tied to the code by exhaustive enumeration of operation sequences (length <=4 quick, <=5 thorough, alphabet of 5) on real Union objects replayed through the extracted model with record equality after every operation',
              note='Trusted: Coq kernel, extraction, derivation of oracle data from observables in harness/c13.py. GaussianMixture, MVEE and the overlap test are oracles whose outputs are checked by the model step. "No operation raises" is decided on the implementation (an exception is an unaccepted event). No axioms.',
              tech='Coq proof (invariants by induction over operation lists) + exhaustive bounded-length differential replay'),
+ 'C01': dict(text='Coq theorems (P_C01.v) by induction over ALL event traces accepted by the shell machine, for an arbitrary contains predicate (any geometry), arbitrary likelihood and batch size: every stored point is in the cube, in its own bound, outside every later bound; shell association = own shell; no point stored twice; unused transfer candidates are in no shell. Tied to the code by replaying traced runs of the real sampler (every bound insertion, batch, end of exploration, toggle, resume) through the extracted model with state equality after every event',
+             note='Trusted: Coq kernel, extraction, trace harness (subclass of public methods; oracle data inferred from observables). contains() is an oracle: its geometric soundness is C07. No axioms.',
+             tech='Coq proof (invariant by induction over event traces) + trace-replay correspondence against the real sampler'),
+ 'C02': dict(text='Coq theorems (P_C02.v): invariants of the shell machine over all traces (parallel arrays aligned; kept samples never exceed proposals in both views) and algebra over Q showing the per-shell formulas of the code are the importance-sampling estimators over all samples (evidence, normalised weights, Kish n_eff). Tied to the code by evaluating the exact dyadic estimator model (extracted) on the stored samples of traced runs at sampled snapshots and comparing with the cached statistics and posterior() weights',
+             note='Trusted: Coq kernel, extraction, exp/log at the model boundary, tolerance 1e-9. The executable evaluator EstimExec and the specification Estim share formulas but their equivalence is not yet a theorem. No axioms.',
+             tech='Coq proof (trace invariants + field algebra over Q) + exact-arithmetic differential check of cached statistics'),
+ 'C03': dict(text='Coq theorems (P_C03.v) over all accepted traces with the three parallel arrays modelled separately: every stored row is (p, lik p, blob p); every evaluated point stored once; posterior() rows (both views) faithful and duplicate-free. Tied to the code by traced runs across evaluation modes (scalar/vectorised, array/dict, Prior object/function/in-place function, n_batch 1..20, six blob kinds, likelihood pool) with the lik/blob tables filled by re-evaluating the pure likelihood, plus a row-by-row check of posterior()',
+             note='Trusted: Coq kernel, extraction, trace harness, bit-exact re-evaluation of the pure test likelihoods. No axioms.',
+             tech='Coq proof (invariants over event traces) + trace-replay correspondence + row re-evaluation'),
+ 'C10': dict(text='Coq theorems (P_C10.v) about the model of run(): each batch evaluates exactly n_batch points, one batch per loop iteration, n_like never exceeds n_like_max by a full batch and nothing happens once the limit is reached, the return value is exactly (explored and all shells >= n_shell and n_eff target met), the sampling phase picks the first shell below n_shell. Tied to the code by replaying whole run() calls (mixed strides, zero and negative budgets, timeout=0, resumes) through the extracted run_call model and by counting actual likelihood calls',
+             note='Trusted: Coq kernel, extraction, trace harness; n_eff>=target and time-out are oracle bits supplied from the public accessors. No axioms.',
+             tech='Coq proof (loop model with guard/branch/return) + replay of run() calls through the extracted model'),
+ 'C12': dict(text='Coq theorems (P_C12.v): once explored, over ANY continuation the machine stays explored, bounds are frozen, every shell only grows by appending, no bound event is accepted; every shell non-empty after exploration; discard toggle changes only the flag and toggling back restores the state; the discarded view is exactly the rows after end_exp. Tied to the code by traced runs with toggles at arbitrary batch boundaries and resumes, estimator comparison in both views, and bit-for-bit restoration of the statistics on the implementation',
+             note='Trusted: Coq kernel, extraction, trace harness. No axioms.',
+             tech='Coq proof (invariants over event traces) + trace-replay correspondence with toggles and resumes'),
 }
 props = [json.loads(l) for l in open(os.path.join(V, 'properties.jsonl'))]
 NA = {}
